@@ -51,7 +51,8 @@ def offset_fns(F):
                 r2 = o["term"].get("resolved")
                 k2 = r2["def"] if isinstance(r2, dict) else o["term"].get("callee")
                 b2 = F.body(k2) if k2 else None
-                if b2 is not None and "output" in b2 and F.ts(b2["output"]) == "usize" and len(b2.get("inputs", [])) == 1 and F.ty(b2["inputs"][0])["k"] in ("ptr", "ref"):
+                if b2 is not None and "output" in b2 and F.ts(b2["output"]) == "usize" and len(b2.get("inputs", [])) == 1 and F.ty(b2["inputs"][0])["k"] in ("ptr", "ref") and not F.handle_name(F.strip_refs(b2["inputs"][0])):
+                    # (not a handle's own accessor - `ArcUnion::tag(&self)` taken off the tagged word is not a data offset)
                     out.add(k2)
     F.__dict__["_offset_fns"] = out
     return out
